@@ -270,9 +270,9 @@ def stream_codecs(ctx, xcheck):
     raw = ['"/a"', ' "/a""b" is cwd', '"/a"""', '""', 'no quotes', ' "/a" "b"', '"/x""""y"', '"""', ' "a', '"/a""" x', '"/a" "" b',
            '""""', '"""""', '"a"""""', '"a""""" x', '"a"""" x', ' """a"', ' """"a"', '"a"b"c"', '"a""', '"a"" x']
     raw += [" " + '"' + gen_name(rng) + '"' + rng.choice(["", " x", '"']) for _ in range(200)]
-    # ... and every string over {quote, a, space} up to length 6 (7 in thorough): the whole loop, model against code
+    # ... and every string over {quote, a, space} up to length 6 (9 in thorough): the whole loop, model against code
     alpha = ['"', "a", " "]
-    top = 7 if ctx.tier == "thorough" else 6
+    top = 9 if ctx.tier == "thorough" else 6
     layer = [""]
     for _ in range(top):
         layer = [x + c for x in layer for c in alpha]
@@ -282,11 +282,11 @@ def stream_codecs(ctx, xcheck):
         ctx.case(("pdr", r))
         defer(53, [r], "parse_directory_response(raw)", canon_ppath(got), model_ppath)
     ctx.count("raw_directory_responses", len(raw))
-    # formatter/parser pair, bounded-exhaustive: every directory string over {quote, a, space, slash} of length <= 5 (6 in
-    # thorough) below the root, real Server.pwd -> info line as the client sees it (' ' + info, rstripped) with and without
-    # trailing text -> real parse_directory_response; oracle: the same PurePosixPath comes back
+    # formatter/parser pair, bounded-exhaustive: every directory string over {quote, a, space, slash} of length <= 5 (7 in
+    # thorough) below the root, real Server.pwd -> info line as the client sees it (' ' + info, rstripped) -> real
+    # parse_directory_response; oracle: the same PurePosixPath comes back
     alpha = ['"', "a", " ", "/"]
-    top = 6 if ctx.tier == "thorough" else 5
+    top = 7 if ctx.tier == "thorough" else 5
     layer, dirs = [""], []
     for _ in range(top):
         layer = [x + c for x in layer for c in alpha]
@@ -304,11 +304,14 @@ def stream_codecs(ctx, xcheck):
         ctx.case(("pwd-pair", d))
         if n_pair % 7 == 0:
             defer(52, [str(cwd)], "pwd_info(exhaustive)", info, lambda mo: sx.txt(mo))
-        for tail in ("", " is the current directory"):
-            got = impl.client.parse_directory_response((" " + info + tail).rstrip())
-            if got != cwd:
-                ctx.violation("PWD info line formatted by the server is parsed by the client to a different directory",
-                              {"key": f"c08-pwd-{shape([d])}", "cwd": str(cwd), "reported": str(got), "tail": tail})
+        got = impl.client.parse_directory_response((" " + info).rstrip())
+        if got != cwd:
+            ctx.violation("PWD info line formatted by the server is parsed by the client to a different directory",
+                          {"key": f"c08-pwd-{shape([d])}", "cwd": str(cwd), "reported": str(got)})
+        # text after the closing quote (257 <quoted> created) is never sent by aioftp's own server: outside the property,
+        # so tied to the model (C08_pwd_trailing_text_ignored) instead of the property oracle
+        line = " " + info + " is the current directory"
+        defer(53, [line], "parse_directory_response(server info + trailing text)", canon_ppath(impl.client.parse_directory_response(line)), model_ppath)
     ctx.traces_impl += n_pair
     ctx.count("pwd_pair_exhaustive", n_pair)
     out = ctx.model([(fn, arg) for fn, arg, _, _, _ in pending])
@@ -463,8 +466,8 @@ def correspondence(ctx):
         "build_mlsx_string on a MemoryPathIO node -> parse_mlsx_line; MLST reply -> info[1].lstrip(); build_list_string -> "
         "parse_list_line_unix; each stage against the model, decode(encode(name)) = name as oracle (names with double quotes are "
         "ordinary cases of every stream); raw directory responses: hand-made, random, and every string over {quote, a, space} up to "
-        "length 6/7 against the model; every directory string over {quote, a, space, slash} up to length 5/6 through real Server.pwd "
-        "and real parse_directory_response with and without trailing text, same path back as oracle; (wire) "
+        "length 6 (thorough: 9) against the model; every directory string over {quote, a, space, slash} up to length 5 (thorough: 7) through real Server.pwd "
+        "and real parse_directory_response, same path back as oracle (with trailing text after the closing quote: against the model); (wire) "
         "real Server+Client over loopback: make_directory, change_directory, get_current_directory, upload_stream (relative), list "
         "(MLSD and raw LIST), stat, is_dir, download_stream, append_stream, rename there and back, remove, remove_directory, the "
         "backend tree compared with the expected tree after every step. Non-trivial = distinct input."
@@ -498,7 +501,7 @@ def replay(ctx, data):
         impl = Impl()
         info, wire_b = impl.pwd_wire(P(r["cwd"]))
         kind, val, rest = impl.client_parse(wire_b)
-        got = impl.client.parse_directory_response((val[1][-1] + r.get("tail", "")).rstrip())
+        got = impl.client.parse_directory_response(val[1][-1])
         print("server sends", info, "client parses", str(got))
         return got == P(r["cwd"])
     if key.startswith("c08-list-") or key.startswith("c08-mlsd-") or key.startswith("c08-mlst-"):
